@@ -1,6 +1,7 @@
 pub mod ast;
 pub mod child;
 pub mod core;
+pub mod gen;
 pub mod model;
 pub mod props;
 pub mod sess;
